@@ -492,7 +492,7 @@ def _r7(ctx):
     if len(classes) < 5:
         raise AnalysisError("collective classes not found")
     memo.run_rule(ctx, classes=classes, modules=[LHM, "pylife.stress.collective.load_collective", "pylife.utils.histogram"],
-                  what="collectives / histograms")
+                  what="collectives / histograms", external_state=("_obj",))   # the frame is the caller's: it may change in place
 
 
 def _r6(ctx):
